@@ -195,8 +195,16 @@ unsafe fn env_publish_one<RW: QueueRW<Pay>>(q: &MultiQueue<RW, Pay>, n: usize) -
         return false;
     }
     let head = q.head.vf_peek();
-    if G_K > 0 && head - true_min(q) >= n {
+    let min = true_min(q);
+    if G_K > 0 && head - min >= n {
         return false;
+    }
+    // a real writer claims only after its full test passed on the cached tail; when the cache says
+    // "full" it first refreshes it (to the minimum it computed) -- modelled as part of the same move, so
+    // that the environment keeps the invariant head - tail_cache <= N that the writers themselves keep
+    let tc = q.tail_cache.peek();
+    if head - tc >= n {
+        q.tail_cache.poke(min);
     }
     let slot = head & (n - 1);
     let v = rt::oracle_usize();
